@@ -80,6 +80,14 @@ Definition guards_of (tb : run_tables) (k : pipe_kind) : list guard :=
 Definition writer_guarded (tb : run_tables) (k : skind) : bool :=
   match find (fun kb => skind_eqb k (fst kb)) (t_writers tb) with Some kb => snd kb | None => false end.
 
+(** Old side of the diff a pipeline reports.  The regex and XML pipelines diff the file's own lines; the libcst pipeline
+    diffs what Tables.diff_source says: the re-rendered parse tree (create_diff_from_tree, pinned tree) or the file's text. *)
+Definition diff_base_at (v : diff_from) (tree : Type) (code : pipe_kind -> tree -> bytes) (k : pipe_kind) (b : bytes) (t : tree) : bytes :=
+  match v with
+  | FromFileText => b
+  | FromTrees => match k with PLibcst => code k t | _ => b end
+  end.
+
 Section Run.
   Variable tb : run_tables.
   Variable tree : Type.
@@ -102,8 +110,7 @@ Section Run.
 
   (** -- LibcstTransformerPipeline.apply / RegexTransformerPipeline.apply / XMLTransformerPipeline.apply -------------
       Returns the result and the bytes written to the file (None = no write). *)
-  Definition diff_base (k : pipe_kind) (b : bytes) (t : tree) : bytes :=
-    match k with PLibcst => code k t | _ => b end.   (* create_diff_from_tree(source_tree, tree) vs the file's lines *)
+  Definition diff_base (k : pipe_kind) (b : bytes) (t : tree) : bytes := diff_base_at (t_diff tb) tree code k b t.
 
   Definition pipeline_apply (K : codemod) (p : path) (content : option bytes) (fi : option (list finding))
     : pres * option bytes :=
